@@ -230,3 +230,76 @@ def pair_tag(view, p):
     b = view.esi[view.chain[p + 1]]['kind']
     via = view.model.via[view.chain[p + 1]]
     return f'{a}-{via}-{b}'
+
+
+def decision_margins(view, ep, k):
+    """(name, relative margin) of every discrete decision taken at instant k
+    of an epoch: lock engage/release, step loads, timers, rule windows,
+    dead-zone edge, stop thresholds.  Small margin = within rounding."""
+    out = []
+    scn, H = view.scn, view.H
+    n = view.n_valid(ep)
+    if k >= n:
+        return out
+    N = view.N
+    d = ep['dump']
+    t = d['time']
+    tscale = max(abs(t[-1]), 1e-300) if t else 1.0
+    wN = view.series(ep, N - 1, SPD)
+    aN = view.series(ep, N - 1, ACC)
+    seg = view.seg_of(ep, k)
+    dt = seg['dt'] if seg else 0.0
+    if view.self_locking and k >= 1:
+        w_adv = wN[k - 1] + aN[k - 1] * dt
+        sc = max(abs(wN[k - 1]), abs(aN[k - 1] * dt), 1e-300)
+        if w_adv != 0:
+            out.append(('lock-engage', abs(w_adv) / sc))
+        tq0 = view.series(ep, 0, TQ)[k - 1]
+        sc = max(abs(view.series(ep, 0, DTQ)[k - 1]),
+                 abs(view.series(ep, 0, LTQ)[k - 1]), 1e-300)
+        if tq0 != 0:
+            out.append(('lock-release', abs(tq0) / sc))
+    for term in (scn.get('load') or {}).get('terms', []):
+        if term['t'] == 'step':
+            out.append(('load-step', abs(t[k] - term['t0']) / tscale))
+    pwm = view.series(ep, 0, 'pwm')
+    dlim = rm.motor_dlim(view.mot)
+    if dlim and pwm and k < len(pwm) and pwm[k] is not None:
+        out.append(('dead-zone', abs(abs(pwm[k]) - dlim) / max(dlim, 1e-300)))
+    if seg and seg['control']:
+        for i, rule in enumerate(scn.get('rules', [])):
+            kd = rule['kind']
+            if kd == 'ConstantPWM':
+                s = si.q_si('Time', rule['start'])
+                e = s + si.q_si('TimeInterval', rule['duration'])
+                out.append(('timer-start', abs(t[k] - s) / tscale))
+                out.append(('timer-end', abs(t[k] - e) / tscale))
+            elif kd in ('StartProportional', 'StartLimitCurrent'):
+                p = view.chain.index(rule['enc'])
+                th = view.series(ep, p, POS)[k]
+                tg = si.q_si('AngularPosition', rule['target'])
+                out.append(('rule-target',
+                            abs(th - tg) / max(abs(th), abs(tg), 1e-300)))
+            elif kd == 'ReachAngularPosition':
+                p = view.chain.index(rule['enc'])
+                th = view.series(ep, p, POS)[k]
+                tg = si.q_si('AngularPosition', rule['target'])
+                tb = si.q_si('Angle', rule['brake'])
+                L0 = view.series(ep, 0, LTQ)[k]
+                err = L0 / view.mot['Tmax'] * tb   # eta_t <= 1: lower bound
+                ths = tg - tb + err
+                out.append(('rule-brake-start',
+                            abs(th - ths) / max(abs(th), abs(tg), tb, 1e-300)))
+    if seg and seg['stop'] is not None:
+        ss = scn['stops'][seg['stop']]
+        var = {'encoder': POS, 'tachometer': SPD,
+               'amperometer': 'electric current'}[ss['sensor']]
+        kind = {'encoder': 'AngularPosition', 'tachometer': 'AngularSpeed',
+                'amperometer': 'Current'}[ss['sensor']]
+        p = view.chain.index(ss['target'])
+        s = view.series(ep, p, var)
+        if s and k < len(s) and s[k] is not None:
+            thr = si.q_si(kind, ss['thr'])
+            out.append(('stop-threshold',
+                        abs(s[k] - thr) / max(abs(s[k]), abs(thr), 1e-300)))
+    return out
